@@ -465,6 +465,14 @@ def _verdict(prog, name, sig, stage, differs, msg, tables, total_s, nq):
     return Result(name, HARNESS_ERROR, sig, "solver counterexample does not reproduce on the real code (model/encoding error): " + msg, payload, total_s, nq)
 
 
+def _assumed(prog, env, ev):
+    """does the concrete table satisfy the program's own assumption (the user's assertions, e.g. distinct sort keys)?"""
+    try:
+        return all(bool(ev(c)) for c in prog.assume(env))
+    except Exception:
+        return True
+
+
 def validate_plan(prog, env, lowered, sym_paths, k):
     """translator validation: real execution vs symbolic result evaluated on k seeded concrete tables"""
     from symdf import conc
@@ -481,6 +489,8 @@ def validate_plan(prog, env, lowered, sym_paths, k):
         except Exception as e:
             continue  # data-dependent refusal of the real code on this table
         ev = conc.Evaluator(conc.assignment(env, tables))
+        if prog.assume is not None and not _assumed(prog, env, ev):
+            continue  # the random table lies outside the program's stated assumption
         got = None
         try:
             for pc, val in sym_paths:
@@ -992,6 +1002,8 @@ def check_reference(prog: Program, validate=2) -> list[Result]:
             except Exception:
                 continue
             ev = conc.Evaluator(conc.assignment(env, tables))
+            if prog.assume is not None and not _assumed(prog, env, ev):
+                continue
             try:
                 hit = [v for pc, v in ref_paths if ev(pc)]
                 if not hit or isinstance(hit[0], Exception):
